@@ -693,7 +693,15 @@ func boolLocalDef(f *Func, id *ast.Ident) ast.Expr {
 		return blk == nil
 	})
 	if blk == nil {
-		return nil
+		// defined in the init of the very if statement whose condition uses it: `if ok := a.Equals(b); !ok {`
+		var hit ast.Expr
+		ast.Inspect(root.Body, func(m ast.Node) bool {
+			if is, ok := m.(*ast.IfStmt); ok && is.Init == ast.Stmt(defStmt) && is.Cond.Pos() <= id.Pos() && id.End() <= is.Cond.End() {
+				hit = def
+			}
+			return hit == nil
+		})
+		return hit
 	}
 	after := false
 	adjacent := false
